@@ -28,7 +28,8 @@ Inductive stepc := St (ops : list op) (counts : option (N * N)) (after : list (N
 
 Inductive case :=
 | CScen (tbl : digtbl) (steps : list stepc) (final : list (N * tree * tree))
-| CResolver (ldel : bool) (l : revid) (rdel : bool) (r : revid) (local_won : bool).
+| CResolver (ldel : bool) (l : revid) (rdel : bool) (r : revid) (local_won : bool)
+| CRevDiff (t : tree) (ids missing : list revid).   (* db.RevDiff on a stored tree: the ids it reports missing *)
 
 Fixpoint run_count (mk : option revid -> body -> list N) (s : sys) (ops : list op) : sys * N * N :=
   match ops with
@@ -61,6 +62,7 @@ Definition check (c : case) : bool :=
       | None => false
       end
   | CResolver ldel l rdel r w => Bool.eqb (local_wins ldel l rdel r) w
+  | CRevDiff t ids missing => list_eqb revid_eqb (rev_diff t ids) missing
   end.
 
 Definition mismatches (cs : list case) : list N := failing check cs.
